@@ -204,7 +204,8 @@ fn s_src(s: &S, ind: usize, acc: &str, out: &mut Vec<String>) {
         S::Match(k, e, arms) => {
             out.push(format!("{pad}let r{k} = match {} & 3u8 {{", e_src(e)));
             for (i, (ss, tail)) in arms.iter().enumerate() {
-                let pat = if i + 1 == arms.len() { "_".to_string() } else { format!("{i}u8") };
+                // overlapping range patterns (arm i covers i-1 ..= i+1), `_` last: several arms match the same value, the first one decides
+                let pat = if i + 1 == arms.len() { "_".to_string() } else { format!("{}u8..={}u8", i.saturating_sub(1), i + 1) };
                 out.push(format!("{pad}    {pat} => {{"));
                 block_src(ss, tail, ind + 1, acc, out);
                 out.push(format!("{pad}    }}"));
@@ -452,8 +453,9 @@ impl Interp<'_> {
                 self.xor_acc(env, acc, r);
             }
             S::Match(_, e, arms) => {
-                let k = (self.e(env, e) & 3) as usize;
-                let (ss, tail) = &arms[k.min(arms.len() - 1)];
+                let v = (self.e(env, e) & 3) as usize;
+                let k = (0..arms.len() - 1).find(|i| i.saturating_sub(1) <= v && v <= i + 1).unwrap_or(arms.len() - 1);
+                let (ss, tail) = &arms[k];
                 let r = self.block(env, ss, tail, acc);
                 self.xor_acc(env, acc, r);
             }
